@@ -613,6 +613,139 @@ def h_sig(e, kinds, types, present, ncontent):
     e.check(_same_tokens(rest, _expected_rest(chars, pos)), 'what follows the invocation is affected: invocation not consumed exactly', 'invocation-consumed')
 
 
+def h_nest(e, kind, n):
+    """one bracketed argument whose n content characters range over {open, close, a}: every nesting pattern of that length"""
+    doc = TeXDocument()
+    op, cl = ('{', '}') if kind == 'm' else (kind[0], kind[2])
+    sig = 'a0' if kind == 'm' else '%s a0 %s' % (op, cl)
+    mac = _macro(sig)
+    doc.context.addGlobal('mac', mac)
+    content = []
+    for j in range(n):
+        c = e.char('v%d' % j, 40, 125)
+        e.assume(e.one_of(c, 'a' + op + cl))
+        content.append(c)
+    chars = list('\\mac ') + [op] + content + [cl] + list('Z|')
+    tex = TeX(doc)
+    tex.input(Src(chars))
+    exc = None
+    try:
+        tok = next(iter(tex))
+        a = tok.attributes
+        rest = _rest(tex)
+    except (ValueError, TypeError, IndexError, AttributeError, KeyError) as ex:
+        exc = ex
+    m = _match(chars, 5, op, cl)
+    if m is None:
+        e.tag('unbalanced')
+        return
+    body, pos = m
+    if exc is not None:
+        e.fail_exception(exc)
+        return
+    got = a.get('a0')
+    e.nontriv()
+    e.check(got is not None and eq(_squeeze(_textof(got)), _squeeze(api.cat(body))), 'nested %s%s argument content' % (op, cl), 'bind-content:nested')
+    e.check(_same_tokens(rest, _expected_rest(chars, pos)), 'nested %s%s argument: invocation not consumed exactly' % (op, cl), 'invocation-consumed:nested')
+
+
+def h_cast(e, typ, n):
+    """TeX.readArgument(type=list/dict) called directly on a braced group whose content characters range over {a , { }}"""
+    doc = TeXDocument()
+    content = []
+    for j in range(n):
+        c = e.char('v%d' % j, 44, 125)
+        e.assume(e.one_of(c, 'a,{}'))
+        content.append(c)
+    pre = list('k=') if typ == 'dict' else []
+    post = list(',j=b') if typ == 'dict' else list(',b')
+    chars = ['{'] + pre + content + post + ['}'] + list('Z|')
+    tex = TeX(doc)
+    tex.input(Src(chars))
+    exc = None
+    try:
+        got = tex.readArgument(type=typ)
+        rest = _rest(tex)
+    except (ValueError, TypeError, IndexError, AttributeError, KeyError) as ex:
+        exc = ex
+    m = _match(chars, 0, '{', '}')
+    if m is None or m[1] != len(chars) - 2:
+        e.tag('unbalanced')
+        return
+    body = m[0]
+    # inner braces must be balanced as well
+    lvl = 0
+    for c in body:
+        if eq(c, '{'):
+            lvl += 1
+        elif eq(c, '}'):
+            lvl -= 1
+            if lvl < 0:
+                e.tag('unbalanced')
+                return
+    if lvl != 0:
+        e.tag('unbalanced')
+        return
+    # reference: split at top-level commas; dict items split at the (only) top-level '='
+    items = [[]]
+    lvl = 0
+    for c in body:
+        if eq(c, '{'):
+            lvl += 1
+        elif eq(c, '}'):
+            lvl -= 1
+        if lvl == 0 and eq(c, ','):
+            items.append([])
+        else:
+            items[-1].append(c)
+    if typ == 'dict':
+        for it in items:
+            if not it or not ((len(it) >= 2 and eq(it[1], '=')) or api.all_([eq(c, 'a') for c in it])):
+                e.tag('nonconforming')               # empty item, or a key-only item containing a brace group
+                return
+    if exc is not None:
+        e.fail_exception(exc)
+        return
+    e.nontriv()
+    if typ == 'list':
+        e.check(len(got) == len(items), 'list cast: %d items, %d expected' % (len(got), len(items)), 'cast-list')
+        if len(got) != len(items):
+            return
+        for g, it in zip(got, items):
+            e.check(eq(_squeeze(_textof(g)), _squeeze(api.cat(it))), 'list cast: item text', 'cast-list')
+    else:
+        exp = []
+        for it in items:
+            if len(it) >= 2 and eq(it[1], '='):
+                exp.append((api.cat([it[0]]), api.cat(it[2:])))
+            else:
+                if not api.all_([eq(c, 'a') for c in it]):
+                    e.tag('nonconforming')           # a key-only item containing a brace group
+                    return
+                if not it:
+                    continue
+                exp.append((api.cat(it), True))
+        # later duplicates of a key overwrite earlier ones
+        final = []
+        for k, v in exp:
+            final = [(k2, v2) for (k2, v2) in final if not eq(k2, k)] + [(k, v)]
+        gkeys = list(got.keys())
+        e.check(len(gkeys) == len(final), 'dictionary cast: %d keys, %d expected' % (len(gkeys), len(final)), 'cast-dict')
+        if len(gkeys) != len(final):
+            return
+        for k, v in final:
+            hit = [g for g in gkeys if eq(g, k)]
+            e.check(len(hit) == 1, 'dictionary cast: key missing', 'cast-dict')
+            if len(hit) != 1:
+                return
+            gv = got[hit[0]]
+            if v is True:
+                e.check(gv is True, 'dictionary cast: flag key', 'cast-dict')
+            else:
+                e.check(gv is not True and eq(_squeeze(_textof(gv)), _squeeze(v)), 'dictionary cast: value', 'cast-dict')
+    e.check(_same_tokens(rest, _expected_rest(chars, len(chars) - 2)), 'cast argument not consumed exactly', 'invocation-consumed:cast')
+
+
 def _textof(x):
     if hasattr(x, 'textContent') and not isinstance(x, str) and not api.is_sym(x):
         return x.textContent
@@ -671,4 +804,8 @@ def jobs(tier, seed):
                 for present in itertools.product(*pres_opts):
                     J.append(dict(harness='h_sig', params=dict(kinds=list(kinds), types=list(types), present=list(present), ncontent=2 if (q or n == 3) else 3),
                                   label='sig %s %s %s' % (' '.join(kinds), types, present), no_twin=True))
+    for kind in ('[o]', 'm', '(o)'):
+        J.append(dict(harness='h_nest', params=dict(kind=kind, n=5 if q else 6), label='nesting %s' % kind, split=4, no_twin=True))
+    for typ in ('dict', 'list'):
+        J.append(dict(harness='h_cast', params=dict(typ=typ, n=4 if q else 5), label='direct cast %s' % typ, split=4, no_twin=True))
     return J
